@@ -14,11 +14,12 @@ open Nervus.Txn
 abbrev atomicStep := step true false
 abbrev atomicRun := run true false
 
-/-- C24's reference: read-your-writes (failures as in the code) -/
-abbrev rywStep := step false true
-abbrev rywRun := run false true
+/-- C24's reference: read-your-writes (failed statements have no effect, as C13 demands and the code now does) -/
+abbrev rywStep := step true true
+abbrev rywRun := run true true
 
-/-- both -/
-abbrev idealRun := run true true
+/-- the pinned tree (before the statement savepoint) and its read-your-writes counterpart -/
+abbrev legacyRun := run false false
+abbrev legacyRywRun := run false true
 
 end Nervus.Spec.TxnSem
